@@ -35,7 +35,9 @@ Busy == EagerEnabled \/ HonourEnabled
 
 Eager == (Internal \/ Honour) /\ UNCHANGED <<hist, stale>>
          \* two workers / two jobs moving at once race for tokens in the real node: no exact prediction then
-         /\ racy' = (racy \/ Cardinality({w \in 1..MaxW : worker[w].st \in {"mark", "fin"}}) + Cardinality({j \in jobs : j.st = "start"}) > 1)
+         \* (a job goroutine just spawned also races with whatever the worker takes from the queue next)
+         /\ racy' = (racy \/ Cardinality({w \in 1..MaxW : worker[w].st \in {"mark", "fin"}}) + Cardinality({j \in jobs : j.st = "start"})
+                               + (IF valQ # <<>> /\ \E w \in Active : worker[w].st = "idle" THEN 1 ELSE 0) > 1)
 
 Send(id) == /\ id \in Ids /\ id \notin stale
             /\ Rec([a |-> "msg", p |-> Peer(id), m |-> id]) /\ LoopArrive(<<id>>) /\ Keep
